@@ -38,9 +38,11 @@ KINDS = {
     "unionstrint": {"oneOf": [{"type": "string"}, {"type": "integer"}]},
     "listenum": {"type": "array", "items": {"$ref": "#/components/schemas/Color"}},
     "nullint": {"type": "integer", "nullable": True},
+    "booldflt": {"type": "boolean", "default": True},         # optional with a declared default: UNSET passed explicitly is still "not sent"
+    "intdflt": {"type": "integer", "default": 50},
     "model": {"$ref": "#/components/schemas/Item"},          # an object as query parameter: its properties are spread into the query
 }
-HEADER_KINDS = ["str", "int", "num", "bool", "enum"]
+HEADER_KINDS = ["str", "int", "num", "bool", "enum", "booldflt", "intdflt"]
 PATH_KINDS = ["str", "int", "enum", "date"]
 COOKIE_KINDS = ["str", "int"]
 
@@ -173,12 +175,16 @@ class ArgBuilder:
                 return None, None, None
             s = SStr(self.fresh(hint, S))
             return s, s, s
-        if kind == "int":
+        if kind in ("int", "intdflt"):
             i = SInt(self.fresh(hint, z3.IntSort()))
             return i, i, SStr(Z.int_str(i.t))
         if kind == "num":
             f = SFloat(Z.fk["fin"], self.fresh(hint, z3.RealSort()))
             return f, f, SStr(Z.flt_str(f.r))
+        if kind == "booldflt":
+            kind = "bool"
+        if kind == "intdflt":
+            kind = "int"
         if kind == "bool":
             b = SBool(self.fresh(hint, z3.BoolSort()))
             return b, b, SStr(z3.If(b.t, z3.StringVal("true"), z3.StringVal("false")))
